@@ -8,8 +8,9 @@
    correspondence check runs against), [Ideal] = Fixed without the panic of
    Coordinator::track for a unit and a target of one name (known finding).
    [is_legacy v = false] covers Fixed and Ideal. *)
-From Coq Require Import NArith List Bool.
+From Coq Require Import NArith ZArith List Bool.
 From RV Require Import Manager.ReloadModel Manager.ReloadProofs.
+From RV Require Manager.ConfDefaultsModel Manager.ConfDefaultsProofs.
 From RV Require Rib.RibModel E2e.E2eModel E2e.E2eProofs Bgp.BgpSessionModel Bgp.BgpSessionProofs Ingress.IngressModel Pipe.PipeModel.
 Import ListNotations.
 Local Open Scope N_scope.
@@ -461,3 +462,62 @@ Example C13_ingress_example :
   map fst (PipeModel.w_ids (E2eModel.es_w (E2eModel.is_e st))) =
     [(0%N, (0, 0, 0, 0, 1, 65001, 1)%N); (4%N, (0, 0, 0, 0, 1, 65001, 1)%N); (8%N, (0, 0, 0, 0, 1, 65001, 1)%N)].
 Proof. exact E2eProofs.ingress_example_ok. Qed.
+
+(* ---- the settings a component is started / reconfigured with: field-level defaults.
+   Vocabulary (ConfDefaultsModel): a schema lists the fields of a component's table that have a
+   documented default which is not the default of the field's type ([cd_bmp_schema]: bmp-tcp-in
+   http_api_path, router_id_template; [cd_rib_schema]: rib http_api_path; [cd_mqtt_schema]:
+   mqtt-out qos, topic_template, connect_retry_secs, publish_max_secs, queue_size); a table maps
+   a key to the value the file gives it, if any; [cd_effective] = the settings the deserialiser
+   hands to the component (None: the file is refused). *)
+Theorem C13_settings_accepts : forall t fs,
+  ConfDefaultsModel.cd_effective t fs <> None <->
+  forall f, In f fs ->
+    match t (ConfDefaultsModel.f_key f) with None => True | Some v => ConfDefaultsModel.cd_fits (ConfDefaultsModel.f_kind f) v = true end.
+Proof. exact ConfDefaultsProofs.effective_accepts. Qed.
+Print Assumptions C13_settings_accepts.
+
+(* an unset key means its documented default, a set key means its value - whatever the
+   table says about the other keys *)
+Theorem C13_settings_key_semantics : forall t fs e,
+  NoDup (ConfDefaultsModel.cd_keys fs) -> ConfDefaultsModel.cd_effective t fs = Some e ->
+  forall f, In f fs ->
+    ConfDefaultsModel.cd_lookup (ConfDefaultsModel.f_key f) e =
+    Some (match t (ConfDefaultsModel.f_key f) with Some v => v | None => ConfDefaultsModel.f_default f end).
+Proof. exact ConfDefaultsProofs.effective_key_semantics. Qed.
+Print Assumptions C13_settings_key_semantics.
+
+Theorem C13_settings_keys_independent : forall t t' fs e e' f,
+  NoDup (ConfDefaultsModel.cd_keys fs) ->
+  ConfDefaultsModel.cd_effective t fs = Some e -> ConfDefaultsModel.cd_effective t' fs = Some e' -> In f fs ->
+  t (ConfDefaultsModel.f_key f) = t' (ConfDefaultsModel.f_key f) ->
+  ConfDefaultsModel.cd_lookup (ConfDefaultsModel.f_key f) e = ConfDefaultsModel.cd_lookup (ConfDefaultsModel.f_key f) e'.
+Proof. exact ConfDefaultsProofs.effective_keys_independent. Qed.
+Print Assumptions C13_settings_keys_independent.
+
+(* the three schemas have distinct keys (so the two theorems apply), and a table that sets
+   none of the keys gives the documented values *)
+Theorem C13_settings_documented :
+  NoDup (ConfDefaultsModel.cd_keys ConfDefaultsModel.cd_bmp_schema) /\
+  NoDup (ConfDefaultsModel.cd_keys ConfDefaultsModel.cd_rib_schema) /\
+  NoDup (ConfDefaultsModel.cd_keys ConfDefaultsModel.cd_mqtt_schema) /\
+  ConfDefaultsModel.cd_effective (fun _ => None) ConfDefaultsModel.cd_bmp_schema =
+    Some [(0, ConfDefaultsModel.DStr ConfDefaultsModel.s_routers); (1, ConfDefaultsModel.DStr ConfDefaultsModel.s_sys_name)] /\
+  ConfDefaultsModel.cd_effective (fun _ => None) ConfDefaultsModel.cd_rib_schema =
+    Some [(0, ConfDefaultsModel.DStr ConfDefaultsModel.s_prefixes)] /\
+  ConfDefaultsModel.cd_effective (fun _ => None) ConfDefaultsModel.cd_mqtt_schema =
+    Some [(0, ConfDefaultsModel.DInt 2); (1, ConfDefaultsModel.DStr ConfDefaultsModel.s_topic); (2, ConfDefaultsModel.DInt 60);
+          (3, ConfDefaultsModel.DInt 5); (4, ConfDefaultsModel.DInt 1000)].
+Proof. exact ConfDefaultsProofs.schemas_documented. Qed.
+Print Assumptions C13_settings_documented.
+
+(* non-vacuity: an mqtt-out table with only qos = 1 and queue_size = 10 keeps the other three
+   documented values; queue_size = 65536 and connect_retry_secs = "60" are refused *)
+Example C13_settings_example :
+  let t := fun k => if k =? 0 then Some (ConfDefaultsModel.DInt 1) else if k =? 4 then Some (ConfDefaultsModel.DInt 10) else None in
+  ConfDefaultsModel.cd_effective t ConfDefaultsModel.cd_mqtt_schema =
+    Some [(0, ConfDefaultsModel.DInt 1); (1, ConfDefaultsModel.DStr ConfDefaultsModel.s_topic); (2, ConfDefaultsModel.DInt 60);
+          (3, ConfDefaultsModel.DInt 5); (4, ConfDefaultsModel.DInt 10)] /\
+  ConfDefaultsModel.cd_effective (fun k => if k =? 4 then Some (ConfDefaultsModel.DInt 65536) else None) ConfDefaultsModel.cd_mqtt_schema = None /\
+  ConfDefaultsModel.cd_effective (fun k => if k =? 2 then Some (ConfDefaultsModel.DStr [54; 48]) else None) ConfDefaultsModel.cd_mqtt_schema = None.
+Proof. exact ConfDefaultsProofs.defaults_example. Qed.
